@@ -109,6 +109,10 @@ TEMPLATES = [
     Tpl("raw_identifier_field", [("r#type", "Probe"), ("r#fn", "Probe")], "{type}/{fn:?}", named=True, quick=True),
     Tpl("arithmetic_on_u8_field", [("n", "u8"), ("q", "Probe")], "{}:{q}", "*n % 10 + 1", named=True, unwind=12),
     Tpl("text_only", PP, "no placeholders, just text é"),
+    Tpl("trailing_whitespace", ["Probe"], "{_0}\\n", quick=True),
+    Tpl("trailing_whitespace_arg", PP, "{:?} \\t", "_1"),
+    Tpl("leading_whitespace", ["Probe"], " \\n{_0}"),
+    Tpl("minus_sign_only", ["Probe"], "{_0:-}", quick=True),
 ]
 
 POINTER_REF = Tpl("pointer_reference_in_args", ["Probe"], "{:p}", "_0", unwind=24)
